@@ -91,7 +91,7 @@ async fn start(cfg: &Value, discover_delay_ms: u64) -> Running {
         "both" => Some(ParseConfig { include_tlvs: false, allow_v1: true, allow_v2: true }),
         _ => None,
     };
-    let limiter = cfg["limit"].as_u64().filter(|l| *l > 0).map(|l| RateLimiter::<IpAddr>::new(Duration::from_secs(600), l as usize));
+    let limiter = cfg["limit"].as_u64().filter(|l| *l > 0).map(|l| RateLimiter::<IpAddr>::new(Duration::from_millis(cfg["windowMs"].as_u64().unwrap_or(600_000)), l as usize));
     let secret = if cfg["secret"].as_bool().unwrap_or(false) { Some(b"listener-secret".to_vec()) } else { None };
     let mut l = Listener::new(a.clone(), a.clone(), Arc::new(Vec::<MetaFilterAdapter>::new()), Arc::new(AnyStrategyAdapter::new()), a.clone(), a.clone())
         .with_rate_limiter(limiter)
@@ -182,6 +182,12 @@ fn header_bytes(hdr: &str, src: SocketAddr, port: u16) -> Vec<u8> {
     match hdr {
         "v1" => proxy_v1(src, dst),
         "v2" => proxy_v2(src, dst),
+        // the same header with the transport nibble DGRAM instead of STREAM (0x12 / 0x22)
+        "v2dgram" => {
+            let mut h = proxy_v2(src, dst);
+            h[13] = (h[13] & 0xf0) | 0x02;
+            h
+        }
         // valid headers that announce no address: the balancer's own connection (health check)
         "v1unknown" => b"PROXY UNKNOWN\r\n".to_vec(),
         "v2local" => vec![0x0D, 0x0A, 0x0D, 0x0A, 0x00, 0x0D, 0x0A, 0x51, 0x55, 0x49, 0x54, 0x0A, 0x20, 0x00, 0x00, 0x00],
@@ -215,6 +221,10 @@ async fn run_c15(sc: &Value) -> Value {
             }
             Ok(mut t) => {
                 let hb = header_bytes(hdr, src, run.port);
+                // a balancer that is slow to announce the address: the connection is there, its header follows later
+                if let Some(ms) = c["hdrDelayMs"].as_u64() {
+                    tokio::time::sleep(Duration::from_millis(ms)).await;
+                }
                 if !hb.is_empty() {
                     // every third connection with a header: the header and the client's first frames leave in ONE segment
                     if conns.len() % 3 == 1 {
